@@ -73,6 +73,10 @@ def make_cases(ctx, n):
         pos = ctx.rng.randint(0, len(g.stmts))
         unit, mult = ctx.rng.choice([("seconds", 10**9), ("millis", 10**6), ("micros", 10**3), ("nanos", 1)])
         mag = ctx.rng.choice([0, 1, 999, 1000, 999999999, ctx.rng.randint(0, 100000)])
+        if ctx.rng.random() < 0.3:
+            # counts that do not fit 32 bits, totals still below the pcap limit of 2^32 seconds
+            mag = ctx.rng.choice({"seconds": [2**31, 4 * 10**9], "millis": [2**32, 2**32 + 250, 10**12],
+                                  "micros": [2**32, 5 * 10**9, 10**15], "nanos": [2**32, 2**32 + 1, 10**18]}[unit])
         v = Case()
         v.name = "p%dj" % i
         v.stmts = g.stmts[:pos] + [gen.Do(gen.Call("time::jump_" + unit, gen.INT(mag)))] + g.stmts[pos:]
